@@ -36,10 +36,7 @@ def classify(why, f, c, o):
     # D14: worker dies inside its idle-timeout path while holding the processes management lock
     if hang and "mgmt.rel" in crash_at and any("@mgmt.acq" in b for b in blocked):
         return {"defect": "D14"}
-    # D15: worker dies after writing its exit announcement, still holding the result-queue write lock
-    #      (treated as a clean exit: either the other workers hang on the lock, or the death simply goes unnoticed)
-    if (hang and "rq.wlock.rel" in crash_at) or "rq.wlock.rel" in f.get("crash_ann", []):
-        return {"defect": "D15"}
+    # (D15 -- death right after the exit announcement, holding the result-queue write lock -- is fixed: no signature)
     # D6: a done-callback that submits (it runs in the manager thread and needs the submit/resize lock) while a caller of
     #     get_reusable_executor holds that lock and waits for something only the manager thread can do
     if any(b.startswith("mgr@exlock.acq") for b in blocked) and "reuse" in ops and "callback_submit" in ops:
